@@ -343,20 +343,25 @@ fn main() {
     let args: Vec<String> = std::env::args().skip(1).collect();
     let mut ctx = Ctx::new("C06", &args);
     ctx.rule(
-        "Cases = generated program tables (grammar Seq/Then(followed_by)/Set/Update/Remove/Clear/Get/Branch(get.and_then)/Effect/\
-         Suspend(immediate future | run_after timer)/Fail/Stop; programs for on_start, on_stop, Run(i) on a command lane, \
-         suspended programs and every lane handler on_event/on_set/on_update/on_remove/on_clear of 2 value + 2 map lanes; a lane's \
-         handlers only mutate lanes of higher index) + an op list (remotes send Run(i) / value sets / map messages, link, sync, \
-         byte-level schedule of every remote, polls, time, drop, stop) + runtime parameters (buffer sizes, coop budget, select seed). \
+        "Cases = generated program tables over two mutually recursive sorts: programs (Seq=Sequentially / Then=followed_by / Set / \
+         Update / Remove / Clear / Discard(value) / Branch(value.and_then|and_then_contextual|and_then_try(k)) / MutV (a mutation whose \
+         value is computed by a value action) / Effect / Suspend(immediate future | run_after timer) / Fail / Stop) and value producing \
+         actions (Get / Const / After=program.followed_by(value) / Of=program.map(const) / Map / Bind / Join / Join3 / Option+Either / \
+         try_handler), so every combinator is composed over arbitrary multi-step sub-programs that change lanes in non-final and final \
+         steps; programs for on_start, on_stop, Run(i) on a command lane, suspended programs and every lane handler \
+         on_event/on_set/on_update/on_remove/on_clear of 2 value + 2 map lanes (a lane's handlers only mutate lanes of higher index) \
+         + an op list (remotes send Run(i) / value sets / map messages, link, sync, byte-level schedule of every remote, polls, time, \
+         drop, stop) + runtime parameters (buffer sizes, coop budget, select seed). \
          Non-trivial = in the reference execution some handler started a cascade of depth >= 2 (a handler triggered by a handler \
-         triggered by its own change) and, after resuming, read a lane that the cascade modified (and the case passed). \
-         Distinct by the Debug form of the case.",
+         triggered by its own change) and, after resuming, read a lane that the cascade modified (and the case passed without a \
+         listed finding). Distinct by the Debug form of the case.",
     );
     ctx.assume("the trace recorded through context.effect closures is in execution order (single agent task)");
     ctx.assume(
         "behaviours taken from the code, not from the statement, that the reference interpreter mirrors: removing an absent key \
          triggers nothing; clearing an empty map and setting / updating to an equal value do trigger the handlers",
     );
+    ctx.assume("join(a, b) / join3(a, b, c) run their operands in parameter order (first, second, third), each to completion");
     ctx.assume(
         "a failure below a command received from a remote is logged and the agent carries on (agent_model main loop); the check \
          accepts that and only requires that nothing further of the failed chain runs",
